@@ -525,8 +525,27 @@ func caseWriteJSON(s *hlib.Suite, f frameSpec) {
 	if err := f.qf.ToJSON(rec); err != nil {
 		panic(err)
 	}
+	total0 := 0
+	for _, p := range rec.pieces {
+		total0 += len(p)
+	}
+	// Go-side oracle, independent of how ToJSON cuts its output into Write calls: a writer that accepts only k
+	// bytes of an output of n > k bytes has not accepted the output; ToJSON must report an error
+	for k := 0; k < total0; k++ {
+		fw := &faultWriter{left: k}
+		var werr error
+		panicked, pv := hlib.Recover(func() { werr = f.qf.ToJSON(fw) })
+		if panicked || werr == nil {
+			s.Fail(s.NextID(), fmt.Sprintf("ToJSON reports success (or panics: %v) although the writer accepted only %d of %d bytes", pv, k, total0),
+				map[string]interface{}{"kind": "to_json", "frame": f.name, "accepted_bytes": k, "output_bytes": total0, "props": []string{"C15"}}, "")
+			break
+		}
+	}
 	if len(rec.pieces) < 2 || string(rec.pieces[0]) != "[" || string(rec.pieces[len(rec.pieces)-1]) != "]" {
-		panic("harness: unexpected ToJSON write pattern")
+		// the write pattern differs from the one the model transcribes: the exact comparison is not possible
+		s.Count("to_json-unexpected-write-pattern")
+		s.Broken("ToJSON no longer writes \"[\", one piece per record, \"]\" (frame " + f.name + "): the model of its write pattern cannot be compared")
+		return
 	}
 	total := 0
 	for _, p := range rec.pieces {
